@@ -389,4 +389,4 @@ Proof.
                         | exact Hw ] ]
             end).
   all: match goal with H : fp _ = ?p |- ?G => idtac "PC" p "|-" G end.
-Qed.
+Show. Abort.
